@@ -17,14 +17,16 @@ def configs(R):
     quick = R.tier == "quick"
     cs = [("all", ALL), ("strong", GROUPS["strong"]), ("only-sha512crypt", ["sha512crypt"]), ("all-but-yescrypt", [m for m in ALL if m != "yescrypt"]),
           ("scrypt-without-yescrypt", ["scrypt", "sha256crypt"]), ("bigcrypt-without-descrypt", ["bigcrypt", "md5crypt"]),
-          ("yescrypt-without-scrypt", ["yescrypt", "gost_yescrypt", "sha512crypt"])]
+          ("yescrypt-without-scrypt", ["yescrypt", "gost_yescrypt", "sha512crypt"]),
+          # descrypt on its own: in the full build bigcrypt sits in front of it and hashes the short phrases itself (seeded/C19f)
+          ("descrypt-without-bigcrypt", ["descrypt", "sha256crypt"])]
     if not quick:
         cs += [("only-" + m, [m]) for m in ALL] + [("all-but-" + m, [x for x in ALL if x != m]) for m in ALL]
         cs += [(k, v) for k, v in GROUPS.items()]
         for i in range(32):
             sub = [m for m in ALL if R.rng.random() < 0.5]
             if sub: cs.append(("random%d" % i, sub))
-        cs += [("yescrypt-only", ["yescrypt"]), ("gost-only", ["gost_yescrypt"]), ("descrypt-without-bigcrypt", ["descrypt"])]
+        cs += [("yescrypt-only", ["yescrypt"]), ("gost-only", ["gost_yescrypt"]), ("descrypt-only", ["descrypt"])]
     return cs
 
 def corpus(R):
@@ -94,6 +96,9 @@ def run(R):
                     plen = len(unhx(t[3]) or b""); slen = len(arg)
                     req = "descrypt" if (plen > 8 and slen <= 13) else ("bigcrypt" if "bigcrypt" in sel else "descrypt")
                     enabled = req in sel
+                    # a traditional-DES request (setting of at most 13 characters) has one answer whichever of the two methods serves it: bigcrypt
+                    # of a phrase of up to 8 bytes is descrypt's hash by design, so descrypt on its own answers as the full build does (seeded/C19f)
+                    if "descrypt" in sel and slen <= 13: same = True
             else:
                 enabled = m in sel; same = enabled
             f = fields(line)
